@@ -6,5 +6,16 @@ class Plugin(HistPlugin):
     id = 'C09'
     extra_import = 'HistProps HistPropCheck'
     check_fn = 'c09_check'
+    weights = {'insert_dated': 10, 'create_ttl': 5, 'clock': 7, 'find': 6, 'count': 3, 'update': 4,
+               'delete': 2, 'distinct': 1, 'create_index': 1, 'drop_index': 2, 'drop_indexes': 1,
+               'drop': 1, 'insert_many': 1, 'fam': 1, 'replace': 1}
+    n_ops = (4, 10)
+    rule = ('histories mixing writes of documents whose TTL field holds a date, an array of dates, an array '
+            'mixing dates and scalars, an empty array, null, a string, a number or nothing; TTL index '
+            'creation with expireAfterSeconds in {0, 1, 10, 60, \'5\', \'abc\', 1.5} on single and '
+            'compound keys, index removal (drop_index, drop_indexes, drop) and clock moves forwards and '
+            'backwards that straddle date+N by +-1 us / 1 ms / 1 s; through find, count, update, delete, '
+            'distinct, duplicate checks and unique index creation. Non-trivial = a TTL index exists, the '
+            'clock moved and a document carries a date; distinct by canonical JSON.')
     FINDING_BITS = 0
-    UNDECIDED_BITS = 0
+    UNDECIDED_BITS = 1 | 2 | 4 | 8
